@@ -280,7 +280,7 @@ func c19Binary() (string, error) {
 			c19BinErr = fmt.Errorf("VERIF_SRC not set")
 			return
 		}
-		dir, err := os.MkdirTemp("", "vh-olareg-bin-")
+		dir, err := os.MkdirTemp(tmpBase(), "vh-olareg-bin-") // the shard's scratch directory: removed by the driver with everything else
 		if err != nil {
 			c19BinErr = err
 			return
